@@ -196,6 +196,26 @@ def variations(ctx, rr):
             rr.fail(ctx.finding('R-VARIATIONS', ep, c, 'Traph.expand_prefix alters the prefix before expanding it (%s): the variations of a different LRU are returned and attached, '
                                 'and the given prefix is no longer listed first' % ', '.join(ast.unparse(v)[:50] if v != 'param' else 'raw parameter' for v in vals),
                                 stmt='expand_prefix argument'))
+    # ... and what it returns is that expansion, in the order lru_variations built it (the given prefix first)
+    from ..dataflow import single_defs as _sd_ep
+    sd_ep = _sd_ep(P, ep)
+    for r_ in P.own(ep, ast.Return):
+        v_ = r_.value
+        if isinstance(v_, ast.Name) and v_.id in sd_ep:
+            v_ = sd_ep[v_.id]
+        while isinstance(v_, ast.Call) and isinstance(v_.func, ast.Name) and v_.func.id in ('list', 'tuple') and len(v_.args) == 1:
+            v_ = v_.args[0]
+            if isinstance(v_, ast.Name) and v_.id in sd_ep:
+                v_ = sd_ep[v_.id]
+        is_call = isinstance(v_, ast.Call) and lv in P.targets(v_)
+        reorder = [c for c in ast.walk(r_.value) if isinstance(c, ast.Call) and ((isinstance(c.func, ast.Name) and c.func.id in ('sorted', 'reversed', 'set', 'frozenset'))
+                                                                              or (isinstance(c.func, ast.Attribute) and c.func.attr in ('sort', 'reverse')))] if r_.value is not None else []
+        if not is_call and not reorder:
+            continue        # some other shape: the argument obligation above still holds; order not decided here
+        rr.ob(ctx.where(ep, r_), 'expand_prefix returns the expansion in the order lru_variations built it', ok=not reorder)
+        if reorder:
+            rr.fail(ctx.finding('R-VARIATIONS', ep, r_, 'Traph.expand_prefix re-orders the expansion (`%s`): the given prefix is no longer listed first, and the order in which the variations '
+                                'are attached and reported changes' % ast.unparse(reorder[0])[:50], stmt='expand_prefix order'))
     # every stem is split off: a bounded split glues the stems beyond the bound (host stems included) into one
     for u in (hv, lv):
         for c in P.own(u, ast.Call):
@@ -311,9 +331,29 @@ def variations(ctx, rr):
                                             'http(s) twin of the LRU' % (ast.unparse(t)[:40], len(needle), k_)))
     # the www test / removal concerns the last host stem only
     host_lists = set()
+    build_appends = set()
     for a in P.own(lv, ast.Assign):
         if isinstance(a.value, ast.ListComp) and 'startswith' in ast.unparse(a.value) and isinstance(a.targets[0], ast.Name):
             host_lists.add(a.targets[0].id)
+    if not host_lists:
+        # the same filter written as a loop: `hosts = []; for s in <stems>: if s.startswith(b'h:'): hosts.append(s)` (either polarity)
+        from .generic_rules import round_must_pass as _rmp2
+        for f_ in P.own(lv, ast.For):
+            if not isinstance(f_.target, ast.Name) or any(isinstance(x, (ast.Break, ast.Return)) for b_ in f_.body for x in ast.walk(b_)):
+                continue
+            v_ = f_.target.id
+            apps = [c for b_ in f_.body for c in ast.walk(b_) if isinstance(c, ast.Call) and isinstance(c.func, ast.Attribute) and c.func.attr == 'append'
+                    and isinstance(c.func.value, ast.Name) and len(c.args) == 1 and isinstance(c.args[0], ast.Name) and c.args[0].id == v_]
+            tests_ = [c for b_ in f_.body for c in ast.walk(b_) if isinstance(c, ast.Call) and isinstance(c.func, ast.Attribute) and c.func.attr == 'startswith'
+                      and isinstance(c.func.value, ast.Name) and c.func.value.id == v_]
+            if len(apps) == 1 and len(tests_) == 1:
+                gf_ = guard_facts(ctx, lv).facts_at(apps[0]) or set()
+                txt_ = ast.unparse(tests_[0])
+                if any(f0[0] == 'T' and f0[1].replace(' ', '') == txt_.replace(' ', '') for f0 in gf_):
+                    inits_ = [a for a in P.own(lv, ast.Assign) if any(isinstance(t, ast.Name) and t.id == apps[0].func.value.id for t in a.targets)]
+                    if len(inits_) == 1 and isinstance(inits_[0].value, ast.List) and not inits_[0].value.elts:
+                        host_lists.add(apps[0].func.value.id)
+                        build_appends.add(id(apps[0]))
     if not host_lists:
         # the host stems are no longer collected by filtering every stem with startswith(b'h:'); the known wrong alternatives are
         # prefix scans (a port stem between scheme and hosts ends them) and regular expressions over the raw LRU (not anchored at a
@@ -352,6 +392,20 @@ def variations(ctx, rr):
             rr.ob(ctx.where(lv, t), 'www test `%s` looks at the last host stem' % ast.unparse(t), ok=idx == '-1')
             if idx != '-1':
                 rr.fail(ctx.finding('R-VARIATIONS', lv, t, 'the www test looks at host stem [%s], not at the trailing one' % idx))
+    # a www test that looks at the text of the whole LRU instead of the last host stem
+    lp_ = lv.params[0] if lv.params else None
+    for i_ in P.own(lv, ast.If):
+        guards_hosts = any(isinstance(c, ast.Call) and isinstance(c.func, ast.Attribute) and c.func.attr in ('pop', 'append') and isinstance(c.func.value, ast.Name)
+                           and c.func.value.id in host_lists and id(c) not in build_appends for b_ in i_.body + i_.orelse for c in ast.walk(b_))
+        if not guards_hosts:
+            continue
+        raw = [x for x in ast.walk(i_.test) if isinstance(x, ast.Name) and x.id == lp_]
+        www = [x for x in ast.walk(i_.test) if isinstance(x, ast.Constant) and isinstance(x.value, (bytes, str)) and (b'www' in x.value if isinstance(x.value, bytes) else 'www' in x.value)]
+        if raw and www:
+            n_www += 1
+            rr.ob(ctx.where(lv, i_), 'www test `%s` looks at the last host stem' % ast.unparse(i_.test)[:50], ok=False)
+            rr.fail(ctx.finding('R-VARIATIONS', lv, i_.test, 'the www test `%s` looks at the text of the whole LRU, not at the last host stem: for a prefix that goes on after its hosts (port, '
+                                'path, query stems) a trailing www host is not recognised and gets a second www added, so the class is not closed' % ast.unparse(i_.test)[:50]))
     rr.require(n_www, 1, 'www tests in lru_variations')
     # a single host stem never gets a www added or removed (its www form would not expand back): checked with the length sets
     def on_www(node, var, lens, need, what):
@@ -367,6 +421,8 @@ def variations(ctx, rr):
     app_sites = []
     for c in P.own(lv, ast.Call):
         if isinstance(c.func, ast.Attribute) and c.func.attr == 'append' and isinstance(c.func.value, ast.Name) and c.func.value.id in host_lists:
+            if id(c) in build_appends:
+                continue        # the append that collects the host stems, not the www variation
             app_sites.append(c)
     lens_at = _lengths_at(ctx, lv, app_sites + [s_[0] for s_ in sites])
     for c in app_sites + [s_[0] for s_ in sites]:
